@@ -136,8 +136,12 @@ Record Inv (s : state) : Prop := {
                 cinv (s_chain s) (s_threads s) ci c;
   inv_cfg : hin (s_chain s) (s_cfg s);
   inv_cache : forall k h, lookup k (s_cache s) = Some h -> In h (s_chain s);
-  inv_cur : (s_cur s < length (s_chain s))%nat
+  inv_cur : (s_cur s < length (s_chain s))%nat;
+  inv_nonneg : forall h, In h (s_chain s) -> 0 <= fst h
 }.
+
+Lemma hin_nonneg ch h : (forall x, In x ch -> 0 <= fst x) -> hin ch h -> 0 <= size h.
+Proof. destruct h; cbn; auto. lia. Qed.
 
 (* what another thread's step may do to the client of thread t *)
 Record cext (t : nat) (c c' : client) : Prop := {
@@ -318,6 +322,7 @@ Proof.
   assert (Hsrv : hin (s_chain s) (nth_error (s_chain s) (s_cur s))).
   { destruct (nth_error (s_chain s) (s_cur s)) eqn:E; cbn; auto. eapply nth_error_In; eauto. }
   destruct (step_at_globals _ _ _ _ _ _ _ _ _ _ _ _ Hti (inv_cfg s HI) (inv_cache s HI) Hs) as (Hcfg' & Hcache').
+  pose proof (inv_nonneg s HI) as Hnn.
   constructor; cbn; auto.
   - intros t2 th2 H2. apply nth_upd in H2 as [(-> & -> & _)|(Hne & H2)].
     + exists c'. rewrite Hcl. split.
@@ -346,4 +351,187 @@ Proof.
   intros HI H. unfold grow in H.
   destruct (Nat.ltb_spec (S (s_cur s)) (length (s_chain s))); [|discriminate].
   injection H as <-. destruct HI. constructor; cbn; auto.
+Qed.
+
+(* ---- runs --------------------------------------------------------------------------------------- *)
+Lemma do_act_inv s a : Inv s -> Inv (fst (do_act s a)).
+Proof.
+  intros HI. destruct a as [t|]; cbn.
+  - destruct (step s t) as [[s' l]|] eqn:E; cbn; auto.
+    assert (Inv s') by (eapply step_inv; eauto). destruct l; auto.
+  - destruct (grow s) eqn:E; cbn; auto. eapply grow_inv; eauto.
+Qed.
+
+Lemma run_tr_cons a r s :
+  run_tr (a :: r) s = (fst (run_tr r (fst (do_act s a))),
+                       snd (do_act s a) ++ snd (run_tr r (fst (do_act s a)))).
+Proof. cbn. destruct (do_act s a) as [s1 e1]; cbn. destruct (run_tr r s1) as [s2 e2]; reflexivity. Qed.
+
+Lemma run_cons a r s : run (a :: r) s = run r (fst (do_act s a)).
+Proof. unfold run. now rewrite run_tr_cons. Qed.
+
+Lemma trace_cons a r s : trace (a :: r) s = snd (do_act s a) ++ trace r (fst (do_act s a)).
+Proof. unfold trace. now rewrite run_tr_cons. Qed.
+
+Lemma run_app a b s : run (a ++ b) s = run b (run a s).
+Proof. revert s; induction a as [|x a IH]; intros s; auto. cbn [app]. rewrite !run_cons. apply IH. Qed.
+
+Lemma trace_app a b s : trace (a ++ b) s = trace a s ++ trace b (run a s).
+Proof.
+  revert s; induction a as [|x a IH]; intros s; auto. cbn [app].
+  rewrite !trace_cons, run_cons, IH, app_assoc. reflexivity.
+Qed.
+
+Lemma run_inv sched s : Inv s -> Inv (run sched s).
+Proof.
+  revert s; induction sched as [|a r IH]; intros s HI; auto.
+  rewrite run_cons. apply IH. now apply do_act_inv.
+Qed.
+
+(* ---- initial states ------------------------------------------------------------------------------- *)
+Record wf_init (chain : list head) (cur : nat) (cfg : option head) (cache : list (nat * head))
+    (nos : list str) (lks : list (nat * str * nat)) : Prop := {
+  wf_cur : (cur < length chain)%nat;
+  wf_cfg : hin chain cfg;
+  wf_cache : forall k h, lookup k cache = Some h -> In h chain;
+  wf_clients : forall x, In x lks -> (fst (fst x) < length nos)%nat;
+  wf_nonneg : forall h, In h chain -> 0 <= fst h
+}.
+
+Lemma map_nth_error_inv {A B} (f : A -> B) l n y :
+  nth_error (map f l) n = Some y -> exists x, nth_error l n = Some x /\ f x = y.
+Proof.
+  rewrite nth_error_map. destruct (nth_error l n); cbn; [intros [= <-]; eauto|discriminate].
+Qed.
+
+Lemma init_inv chain cur cfg cache nos lks :
+  wf_init chain cur cfg cache nos lks -> Inv (init_state chain cur cfg cache nos lks).
+Proof.
+  intros []. constructor; cbn; auto.
+  - intros t th H. apply map_nth_error_inv in H as (x & Hx & <-).
+    assert (Hin : In x lks) by (eapply nth_error_In; eauto).
+    destruct (nth_error nos (fst (fst x))) as [n|] eqn:E.
+    + exists (new_client n). split; [now apply map_nth_error|].
+      constructor; cbn; auto; try discriminate; try lia; intuition discriminate.
+    + apply nth_error_None in E. specialize (wf_clients0 _ Hin). lia.
+  - intros ci c H. apply map_nth_error_inv in H as (n & Hn & <-).
+    constructor; cbn; auto; try discriminate; try lia.
+Qed.
+
+(* ---- the heads never regress ------------------------------------------------------------------------ *)
+Definition mem_of (s : state) (ci : nat) : option head :=
+  match nth_error (s_clients s) ci with Some c => c_mem c | None => None end.
+
+Definition heads_le (s s' : state) : Prop :=
+  size (s_cfg s) <= size (s_cfg s') /\ forall ci, size (mem_of s ci) <= size (mem_of s' ci).
+
+Lemma heads_le_refl s : heads_le s s.
+Proof. split; intros; lia. Qed.
+
+Lemma heads_le_trans a b c : heads_le a b -> heads_le b c -> heads_le a c.
+Proof. intros [H1 H2] [H3 H4]. split; [lia|]. intros ci. specialize (H2 ci). specialize (H4 ci). lia. Qed.
+
+Lemma step_heads_le s t s' l : Inv s -> step s t = Some (s', l) -> heads_le s s'.
+Proof.
+  intros HI H. unfold step in H.
+  destruct (nth_error (s_threads s) t) as [th|] eqn:Ht; [|discriminate].
+  destruct (nth_error (s_clients s) (t_cl th)) as [c|] eqn:Hc; [|discriminate].
+  destruct (step_at t th c (s_cfg s) (s_cache s) (nth_error (s_chain s) (s_cur s)))
+    as [[[[[th' c'] cfg'] cache'] l']|] eqn:Hs; [|discriminate].
+  injection H as <- <-.
+  destruct (inv_threads s HI t th Ht) as (c0 & Hc0 & Hti). rewrite Hc in Hc0. injection Hc0 as <-.
+  destruct (step_at_cext (S t) _ _ _ _ _ _ _ _ _ _ _ _ (Nat.neq_succ_diag_l t) Hti Hs) as ([Hm _ _ _] & Hcfg).
+  split; cbn; auto. intros ci. unfold mem_of; cbn.
+  destruct (Nat.eq_dec ci (t_cl th)) as [->|Hne].
+  - rewrite nth_upd_eq by (eapply nth_some_lt; eauto). now rewrite Hc.
+  - rewrite nth_upd_ne by auto. lia.
+Qed.
+
+Lemma do_act_heads_le s a : Inv s -> heads_le s (fst (do_act s a)).
+Proof.
+  intros HI. destruct a as [t|]; cbn.
+  - destruct (step s t) as [[s' l]|] eqn:E; cbn; [|apply heads_le_refl].
+    assert (heads_le s s') by (eapply step_heads_le; eauto). destruct l; auto.
+  - unfold grow. destruct (Nat.ltb _ _); cbn; split; unfold mem_of; cbn; intros; lia.
+Qed.
+
+Lemma run_heads_le sched s : Inv s -> heads_le s (run sched s).
+Proof.
+  revert s; induction sched as [|a r IH]; intros s HI; [apply heads_le_refl|].
+  rewrite run_cons. eapply heads_le_trans; [apply do_act_heads_le; auto|].
+  apply IH. now apply do_act_inv.
+Qed.
+
+(* along any run, a later state has heads at least as large as an earlier one *)
+Lemma latest_never_regresses_run s sched1 sched2 :
+  Inv s -> heads_le (run sched1 s) (run (sched1 ++ sched2) s).
+Proof. intros HI. rewrite run_app. apply run_heads_le. now apply run_inv. Qed.
+
+(* ---- results ------------------------------------------------------------------------------------------ *)
+Lemma results_inv s t th :
+  Inv s -> nth_error (s_threads s) t = Some th -> t_pc th = PDone ->
+  exists c, nth_error (s_clients s) (t_cl th) = Some c /\
+            t_res th = if skips c th then RSkip else ROk (t_key th).
+Proof.
+  intros HI Ht Hpc. destruct (inv_threads s HI t th Ht) as (c & Hc & Hti).
+  exists c. split; auto. now apply (ti_done _ _ _ _ _ Hti).
+Qed.
+
+(* ---- GONOSUMDB ------------------------------------------------------------------------------------------ *)
+Definition skipping (s : state) (t : nat) : Prop :=
+  exists th c, nth_error (s_threads s) t = Some th /\ nth_error (s_clients s) (t_cl th) = Some c /\
+               skips c th = true.
+
+Lemma skips_static c c' th th' :
+  c_nosumdb c' = c_nosumdb c -> t_path th' = t_path th -> skips c' th' = skips c th.
+Proof. unfold skips. now intros -> ->. Qed.
+
+Lemma step_skipping s t0 s' l t : step s t0 = Some (s', l) -> skipping s t -> skipping s' t.
+Proof.
+  intros H (th2 & c2 & Ht2 & Hc2 & Hsk). unfold step in H.
+  destruct (nth_error (s_threads s) t0) as [th|] eqn:Ht; [|discriminate].
+  destruct (nth_error (s_clients s) (t_cl th)) as [c|] eqn:Hc; [|discriminate].
+  destruct (step_at t0 th c (s_cfg s) (s_cache s) (nth_error (s_chain s) (s_cur s)))
+    as [[[[[th' c'] cfg'] cache'] l']|] eqn:Hs; [|discriminate].
+  injection H as <- <-.
+  destruct (step_at_static _ _ _ _ _ _ _ _ _ _ _ Hs) as (Hcl & Hkey & Hpath & Hns).
+  assert (Hlt : (t0 < length (s_threads s))%nat) by (eapply nth_some_lt; eauto).
+  assert (Hlc : (t_cl th < length (s_clients s))%nat) by (eapply nth_some_lt; eauto).
+  unfold skipping; cbn.
+  destruct (Nat.eq_dec t0 t) as [->|Hne].
+  - rewrite Ht in Ht2. injection Ht2 as <-. rewrite Hc in Hc2. injection Hc2 as <-.
+    exists th', c'. rewrite nth_upd_eq by auto. rewrite Hcl, nth_upd_eq by auto.
+    repeat split; auto. now rewrite (skips_static c c' th th').
+  - rewrite nth_upd_ne by auto. destruct (Nat.eq_dec (t_cl th) (t_cl th2)) as [E|E].
+    + exists th2, c'. rewrite <- E, nth_upd_eq by auto. repeat split; auto.
+      rewrite <- E, Hc in Hc2. injection Hc2 as <-.
+      now rewrite (skips_static c c' th2 th2).
+    + exists th2, c2. rewrite nth_upd_ne by auto. auto.
+Qed.
+
+Lemma step_skipping_silent s t s' l : Inv s -> skipping s t -> step s t = Some (s', l) -> l = LTau.
+Proof.
+  intros HI (th2 & c2 & Ht2 & Hc2 & Hsk) H. unfold step in H. rewrite Ht2, Hc2 in H.
+  destruct (inv_threads s HI t th2 Ht2) as (c0 & Hc0 & Hti). rewrite Hc2 in Hc0. injection Hc0 as <-.
+  destruct (ti_skip _ _ _ _ _ Hti Hsk) as [Hp|Hp]; unfold step_at in H; rewrite Hp in H.
+  - rewrite Hsk in H. now injection H as <- <-.
+  - discriminate.
+Qed.
+
+Lemma gonosumdb_run sched s t :
+  Inv s -> skipping s t -> forall e, In e (trace sched s) -> fst e <> t.
+Proof.
+  revert s; induction sched as [|a r IH]; intros s HI Hsk e Hin; [destruct Hin|].
+  rewrite trace_cons in Hin. apply in_app_or in Hin as [Hin|Hin].
+  - destruct a as [t0|]; cbn in Hin.
+    + destruct (step s t0) as [[s' l]|] eqn:E; [|destruct Hin].
+      destruct (Nat.eq_dec t0 t) as [->|Hne].
+      * rewrite (step_skipping_silent _ _ _ _ HI Hsk E) in Hin. destruct Hin.
+      * destruct l; cbn in Hin; try contradiction; (destruct Hin as [<-|Hf]; [cbn; auto|contradiction]).
+    + destruct (grow s); destruct Hin.
+  - eapply (IH (fst (do_act s a))); eauto using do_act_inv.
+    destruct a as [t0|]; cbn.
+    + destruct (step s t0) as [[s' l]|] eqn:E; cbn; auto.
+      assert (skipping s' t) by (eapply step_skipping; eauto). destruct l; auto.
+    + unfold grow. destruct (Nat.ltb _ _); cbn; auto.
 Qed.
